@@ -25,7 +25,9 @@ def extra_builds(tier):
 
 def bounds(tier):
     return {"lengths": "0..=160" if tier == "thorough" else "0..=80", "keys": 42 if tier == "thorough" else 8, "two_splits": "all cut points",
-            "three_splits": "all for len<=50 (3 keys)" if tier == "thorough" else "none", "tree_depth": 3}
+            "three_splits": "all for len<=50 (3 keys)" if tier == "thorough" else "none", "tree_depth": 3,
+            "limb_field_blocks": len(limb_blocks(tier)), "steering_cases": len(limb_cases(tier)), "saturated_block_sequences": len(saturated_cases(tier)),
+            "corner_state_inputs": len(corner_cases()), "repeat_and_reset_histories": True}
 
 
 def validate_models(tier):
